@@ -55,18 +55,32 @@ type Fault struct {
 
 // FakeCtr is one container of the inventory.
 type FakeCtr struct {
-	ID      string            `json:"id"`
-	Name    string            `json:"name"`
-	Image   string            `json:"image"`
-	ImageID string            `json:"imageId"`
-	Command string            `json:"command"`
-	Created int               `json:"created"`
-	State   string            `json:"state"`
-	Status  string            `json:"status"`
+	ID      string            `json:"-"`
+	Name    string            `json:"-"`
+	Image   string            `json:"-"`
+	ImageID string            `json:"-"`
+	Command string            `json:"-"`
+	State   string            `json:"-"`
+	Status  string            `json:"-"`
 	Labels  map[string]string `json:"-"`
-	LabelKV [][2][]int        `json:"labels"` // [[keyBytes, valueBytes], ...]
-	Frames  []Frame           `json:"frames"`
-	NoName  bool              `json:"noName,omitempty"`
+	// abstract (byte sequence) forms, as the cases carry them
+	BID      []int      `json:"id"`
+	BName    []int      `json:"name"`
+	BImage   []int      `json:"image"`
+	BImageID []int      `json:"imageId"`
+	BCommand []int      `json:"command"`
+	Created  int        `json:"created"`
+	BState   []int      `json:"state"`
+	BStatus  []int      `json:"status"`
+	LabelKV  [][2][]int `json:"labels"` // [[keyBytes, valueBytes], ...]
+	Frames   []Frame    `json:"frames"`
+	NoName   bool       `json:"noName"`
+}
+
+// simpleCtr builds a container from Go strings.
+func simpleCtr(id, name string, frames []Frame) FakeCtr {
+	return FakeCtr{BID: B(id), BName: B(name), BImage: B("img"), BImageID: B("sha"), BCommand: B("cmd"), Created: 1,
+		BState: B("running"), BStatus: B("Up"), LabelKV: [][2][]int{}, Frames: frames}
 }
 
 // FakeDocker implements the two client.APIClient methods docker-logql uses. Every call is recorded
@@ -347,6 +361,9 @@ func newFakeDocker(t *Trace, scn int, ctrs []FakeCtr) *FakeDocker {
 	cs := make([]FakeCtr, len(ctrs))
 	copy(cs, ctrs)
 	for i := range cs {
+		c := &cs[i]
+		c.ID, c.Name, c.Image, c.ImageID = S(c.BID), S(c.BName), S(c.BImage), S(c.BImageID)
+		c.Command, c.State, c.Status = S(c.BCommand), S(c.BState), S(c.BStatus)
 		cs[i].Labels = map[string]string{}
 		for _, kv := range cs[i].LabelKV {
 			cs[i].Labels[S(kv[0])] = S(kv[1])
